@@ -10,7 +10,7 @@ From J5V.lib Require Import Outcome Json.
 From J5V.model Require Import CodecTypes CodecDecScalar CodecDec CodecDecTree.
 From J5V.model Require Import CodecDecCommute.
 From J5V.proofs Require Import CodecDecProofs CodecDecStored CodecDecMsgSorted CodecDecSupport CodecDecLocal
-                               CodecDecTreeUnfold CodecDecTreeFuel CodecDecExposed.
+                               CodecDecTreeUnfold CodecDecTreeFuel CodecDecExposed CodecDecOneofPair.
 Import ListNotations.
 Local Open Scope N_scope.
 
@@ -54,7 +54,8 @@ Section Reorder.
     (forall p, In p props -> prop_ok e p) /\
     forall p q, In p props -> In q props -> p_json p <> p_json q ->
       compat (p_path p) (p_siblings p) (p_path q) (p_siblings q) \/
-      disjoint (prop_support e p) (prop_support e q).
+      disjoint (prop_support e p) (prop_support e q) \/
+      oneof_after p q.
 
   Lemma cstep_unit_ok d f p v h h' :
     cstep orc e d f p v h = Ok (h', tt) <-> oneof_conflict p h = false /\ tr_present orc e f (d + 1) p v h = Ok h'.
@@ -212,9 +213,13 @@ Section Reorder.
     assert (Hjson : p_json pa <> p_json pb).
     { intros E. rewrite E in Hne. rewrite (proj2 (bytes_eqb_eq (p_json pb) (p_json pb)) eq_refl) in Hne. discriminate. }
     destruct PC as [Oks PC].
+    assert (PC' : compat (p_path pa) (p_siblings pa) (p_path pb) (p_siblings pb) \/
+                  disjoint (prop_support e pa) (prop_support e pb)).
+    { destruct (PC pa pb Ina Inb Hjson) as [C|[D|O]]; [left; exact C|right; exact D|].
+      exfalso. rewrite (oneof_after_conflict orc e pa pb fa (d + 1) va m m1 O Hva Hpa) in Hcb. discriminate. }
     pose proof (proj2 (cstep_unit_ok d fa pa va m m1) (conj Hca Hpa)) as Sa.
     pose proof (proj2 (cstep_unit_ok d fb pb vb m1 m2) (conj Hcb Hpb)) as Sb.
-    destruct (cstep_commute d fa fb pa pb va vb (Oks pa Ina) (Oks pb Inb) (PC pa pb Ina Inb Hjson) m m1 m2 W Sa Sb)
+    destruct (cstep_commute d fa fb pa pb va vb (Oks pa Ina) (Oks pb Inb) PC' m m1 m2 W Sa Sb)
       as (h2 & Sb' & Sa').
     apply cstep_unit_ok in Sb'. destruct Sb' as [Hcb2 Hpb2]. apply cstep_unit_ok in Sa'. destruct Sa' as [Hca2 Hpa2].
     exists h2, (p_json pb :: seen), (p_json pa :: p_json pb :: seen). split; [|split].
@@ -292,10 +297,11 @@ Proof.
   - rewrite forallb_forall in H1. intros p Hp. apply prop_ok_b_sound. apply H1. exact Hp.
   - rewrite forallb_forall in H2. intros p q Hp Hq Hne.
     specialize (H2 p Hp). rewrite forallb_forall in H2. specialize (H2 q Hq).
+    apply orb_prop in H2. destruct H2 as [H2|H2]; [|right; right; apply oneof_after_b_sound; exact H2].
     apply orb_prop in H2. destruct H2 as [H2|H2].
     + apply orb_prop in H2. destruct H2 as [H2|H2]; [apply bytes_eqb_eq in H2; congruence|].
       left. apply compat_b_sound. exact H2.
-    + right. apply disjoint_b_sound. exact H2.
+    + right. left. apply disjoint_b_sound. exact H2.
 Qed.
 
 Lemma lookup_In e : forall ref sc, lookup e ref = Some sc -> exists n, In (n, sc) e.
